@@ -19,5 +19,6 @@ INVARIANT NoWarning
 INVARIANT RoundTrip
 INVARIANT BlocksAsWritten
 INVARIANT NormalForm
+INVARIANT FormsAgree
 INVARIANT EmitText
 CHECK_DEADLOCK FALSE
